@@ -98,13 +98,15 @@ def fix_keyids(net):
 
 def session_handshake(run, rng, n, label):
     cfg = {"loss": rng.choice([0, 0, 0.1]), "dup": rng.choice([0, 0.2]), "reorder": rng.choice([0, 0.3]),
-           "tick": rng.choice([300, 600, 900])}
+           "tick": rng.choice([300, 600, 900]), "delay": rng.choice([0, 300, 600, 1500])}
     mtu = rng.choice([1500, 1500, 512, 800, 1096])
     net = Net2(run, rng, cfg, mtu=mtu, established=False, key=None)
     try:
         net.A.apply(("hello", net.t, rng.randrange(2)))
+        eager = rng.random() < 0.6     # the application also calls send() while the handshake is still running
         for i in range(n):
-            if net.A.impl.conn.status.value == 2 and net.B.impl.conn.status.value == 2 and rng.random() < 0.5:
+            both = net.A.impl.conn.status.value == 2 and net.B.impl.conn.status.value == 2
+            if (both or eager) and rng.random() < 0.5:
                 who = rng.choice(["client", "server"])
                 net.send(who, rng.choice([0, 1, 9, 40, 300, net.env[0], net.env[0] + 1, 2500]), rng.choice([0, 1, -1]))
             net.step()
